@@ -11,6 +11,7 @@ import compat  # noqa: F401
 from bodies import enc, vcard, vevent
 from common import DRIVER, VERIF, run_driver, scratch_dir
 from httpdrv import make_server, parse_multistatus
+import transval
 
 AUDIT = "Audit/C16.lean"
 MODULE = "Xandikos.Theorems.C16Resolve"
@@ -363,7 +364,7 @@ def run(chk):
                 "POST Location, PROPPATCH and error responses: every href is dereferenced exactly as sent (RFC 3986 "
                 "resolution against the request URL) and must serve the member it was emitted for; plus the urllib "
                 "model against CPython")
-    chk.lean_obligations(MODULE, AUDIT)
+    chk.lean_obligations(MODULE, AUDIT, regen=lambda c: transval.regen(c, ["Href"]))
     quick = chk.tier == "quick"
     url_differential(chk, quick)
     names = list(STEMS)
